@@ -29,6 +29,37 @@
 (*   scale_to_phys('rev'): x := x / scaler                                 *)
 (* ScaleRoundTrip: to_phys(mode) after to_norm(mode) is the identity, and  *)
 (* the other way round.                                                    *)
+(*                                                                         *)
+(* Complex-step mode.  A vector allocated complex (`alloc`) stores TWO     *)
+(* planes: x (real parts) and xi (imaginary parts).                        *)
+(* Vector.set_complex_step_mode(active) only says which array the vector   *)
+(* IS (the "visible array", what asarray() and x[name] return):            *)
+(*   in the mode        the complex array   x + i xi                       *)
+(*   out of the mode    the real array      x   (xi stays in the storage,  *)
+(*                      hidden, and is seen again when the mode is         *)
+(*                      switched on: the switch itself changes no data)    *)
+(* Two classes of operation:                                               *)
+(*  ARITHMETIC (+=, -=, *=, iadd/isub/imul with idxs, add_scal_vec, += c,  *)
+(*   scale_to_norm/phys, a write through the array returned by x[name])    *)
+(*   is the NumPy operation on the visible array, the operand being the    *)
+(*   visible array of the other vector: complex arithmetic on both planes  *)
+(*   in the mode; out of the mode the real plane only, xi untouched.       *)
+(*  SET (set_val, set_vec, x[name] = v, set_var) is the NumPy assignment   *)
+(*   storage[idxs] = value on the STORAGE in and out of the mode: the      *)
+(*   addressed entries become the value, so their imaginary part becomes   *)
+(*   that of the value - zero for real data.  For set_val / set_vec this   *)
+(*   is documented in default_vector.py ("we use _data here specifically   *)
+(*   so that imaginary part will get properly reset, e.g. when the array   *)
+(*   is zeroed out"); for set_var / __setitem__ out of the mode the code   *)
+(*   (vector.py: vinfo.view[idxs()] = value, vinfo.flat[..] = value.flat)  *)
+(*   is the only definition and is transcribed here.                       *)
+(* dot() and get_norm() are np.dot / np.linalg.norm of the visible arrays  *)
+(* (code transcribed; the docstring of dot speaks of "the real parts", in  *)
+(* the mode the code returns the bilinear complex product, which is what   *)
+(* NumPy's dot is): dot = sum x_k v_k without conjugation, norm^2 =        *)
+(* sum |x_k|^2.  Complex operands are only used in the mode (NumPy rejects *)
+(* complex += into a real array).  The scaling factors are real, so the    *)
+(* round trip and the dual pairing hold plane by plane.                    *)
 (***************************************************************************)
 EXTENDS Rat, Naturals, FiniteSets, TLC
 
@@ -39,7 +70,10 @@ CONSTANTS Layouts,     \* sequence of layout records (VectorMC)
           Record       \* TRUE: the history carries the observables after every action (export); FALSE: only the actions
 
 Kinds == {"nl_out", "nl_res", "ln_out", "ln_res"}
-Scalars == {R(-2), Zero, R(3)}
+\* a scalar operand is a pair <<re, im>> of rationals; complex operands exist in complex-step mode only
+Re(c) == <<c, Zero>>
+Scalars == {Re(R(-2)), Re(Zero), Re(R(3))}
+CScalars == {<<R(1), R(2)>>, <<Zero, R(-1)>>}           \* 1+2j, -1j
 
 \* ---- layout geometry ---------------------------------------------------------------------------------------------
 RECURSIVE SizeTo(_, _)
@@ -57,6 +91,25 @@ Assign(x, pos, vals) ==
                          THEN vals[CHOOSE k \in 1..Len(pos) : pos[k] + 1 = p /\ \A k2 \in (k + 1)..Len(pos) : pos[k2] + 1 # p]
                          ELSE x[p]]
 VMul(u, v) == [i \in DOMAIN u |-> Mul(u[i], v[i])]
+\* complex arrays are pairs <<real plane, imaginary plane>>
+CFill(n, c) == <<Fill(n, c[1]), Fill(n, c[2])>>
+CAddV(u, v) == <<VAdd(u[1], v[1]), VAdd(u[2], v[2])>>
+CSubV(u, v) == <<VSub(u[1], v[1]), VSub(u[2], v[2])>>
+CMulV(u, v) == <<[i \in DOMAIN u[1] |-> Sub(Mul(u[1][i], v[1][i]), Mul(u[2][i], v[2][i]))],
+                 [i \in DOMAIN u[1] |-> Add(Mul(u[1][i], v[2][i]), Mul(u[2][i], v[1][i]))]>>
+CScaleV(c, u) == <<[i \in DOMAIN u[1] |-> Sub(Mul(c[1], u[1][i]), Mul(c[2], u[2][i]))],
+                   [i \in DOMAIN u[1] |-> Add(Mul(c[1], u[2][i]), Mul(c[2], u[1][i]))]>>
+CAssign(u, pos, w) == <<Assign(u[1], pos, w[1]), Assign(u[2], pos, w[2])>>
+CPick(u, pos) == <<[k \in 1..Len(pos) |-> u[1][pos[k] + 1]], [k \in 1..Len(pos) |-> u[2][pos[k] + 1]]>>
+\* sum u_k v_k (as Dot of Rat.tla, written as a loop over the index: cheaper for TLC)
+RECURSIVE DotTo(_, _, _)
+DotTo(u, v, n) == IF n = 0 THEN Zero ELSE Add(DotTo(u, v, n - 1), Mul(u[n], v[n]))
+VDot(u, v) == DotTo(u, v, Len(u))
+\* np.dot of two complex arrays: bilinear, no conjugation
+CDotP(ur, ui, vr, vi) == <<Sub(VDot(ur, vr), VDot(ui, vi)), Add(VDot(ur, vi), VDot(ui, vr))>>
+CDot(u, v) == CDotP(u[1], u[2], v[1], v[2])
+\* np.linalg.norm(u)^2 = sum |u_k|^2
+CNorm2(u) == Add(VDot(u[1], u[1]), VDot(u[2], u[2]))
 VarView(Ly, x, v) == [k \in 1..VSize(Ly, v) |-> x[Start(Ly, v) + k]]
 AllViews(Ly, x) == [v \in 1..Len(Ly.vars) |-> VarView(Ly, x, v)]
 
@@ -70,61 +123,123 @@ ToNorm(Ly, kind, mode, x) ==
 ToPhys(Ly, kind, mode, x) ==
     IF mode = "fwd" THEN [i \in DOMAIN x |-> Add(Mul(x[i], Scaler(Ly, kind)[i]), Adder(Ly, kind)[i])]
     ELSE [i \in DOMAIN x |-> Div(x[i], Scaler(Ly, kind)[i])]
+\* the scaling factors are real: in complex-step mode the imaginary plane is divided / multiplied by the scaler, the
+\* adder acts on the real plane only
+ToNormI(Ly, kind, mode, xi) ==
+    IF mode = "fwd" THEN [i \in DOMAIN xi |-> Div(xi[i], Scaler(Ly, kind)[i])]
+    ELSE [i \in DOMAIN xi |-> Mul(xi[i], Scaler(Ly, kind)[i])]
+ToPhysI(Ly, kind, mode, xi) ==
+    IF mode = "fwd" THEN [i \in DOMAIN xi |-> Mul(xi[i], Scaler(Ly, kind)[i])]
+    ELSE [i \in DOMAIN xi |-> Div(xi[i], Scaler(Ly, kind)[i])]
 ModesOf(kind) == IF Linear(kind) THEN {"fwd", "rev"} ELSE {"fwd"}
 
 \* ---- numbers -----------------------------------------------------------------------------------------------------
 X0(n) == [i \in 1..n |-> R(((i * 3) % 7) - 2)]         \* the vector under test starts as  1 4 0 3 -1 ...
 Y0(n) == [i \in 1..n |-> R(((i * 2) % 5) - 2)]         \* the second vector                 0 2 -1 1 -2 ...
 Arr(k, n) == IF k = 1 THEN [i \in 1..n |-> R(i)] ELSE [i \in 1..n |-> R(5 - 2 * i)]
+XI0(n) == [i \in 1..n |-> R(((i * 5) % 7) - 3)]        \* imaginary planes left by an earlier complex step   2 0 -2 3 1 ...
+YI0(n) == [i \in 1..n |-> R(((i * 4) % 5) - 2)]        \*                                                     2 1 0 -1 -2 ...
+\* set_val(array): k = 1, 2 real arrays, k = 3 a complex array (complex-step mode only)
+ArrC(k, n) == IF k = 3 THEN <<Arr(1, n), Arr(2, n)>> ELSE <<Arr(k, n), Fill(n, Zero)>>
 \* magnitudes are kept small enough for TLC's 32-bit integers: products are only formed from tame vectors
 Tame(x) == \A i \in DOMAIN x : Abs(x[i][1]) <= 1000 /\ x[i][2] <= 8
 NoVal == <<0, 0>>
 
 \* ---- the state machine -------------------------------------------------------------------------------------------
 VARIABLES ly, kind,     \* layout index, vector kind (fixed along a behaviour)
-          x,            \* the flat data of the vector under test
-          y,            \* the flat data of the second vector (never written)
+          alloc,        \* the vectors are allocated complex (fixed along a behaviour)
+          x, xi,        \* the storage of the vector under test: real plane, imaginary plane (all zero unless alloc)
+          y, yi,        \* the storage of the second vector (never written)
+          cs,           \* complex-step mode (of both vectors: a System switches all its vectors together)
           st,           \* "phys", "norm_fwd" or "norm_rev"
           hist
-vars == <<ly, kind, x, y, st, hist>>
+vars == <<ly, kind, alloc, x, xi, y, yi, cs, st, hist>>
 
 L == Layouts[ly]
+ZeroV == TLCEval(Fill(Len(x), Zero))
+\* the array the vector IS at the moment (asarray()): complex in the mode, the real plane out of it
+VisOf(m, re, im) == IF m THEN <<re, im>> ELSE <<re, ZeroV>>
+Vis == VisOf(cs, x, xi)
+VisY == VisOf(cs, y, yi)
+TameC(u) == Tame(u[1]) /\ Tame(u[2])
 
-Obs(a, nx) == IF Record
-              THEN [a |-> a, data |-> nx, views |-> AllViews(L, nx),
-                    dot |-> IF Tame(nx) THEN Dot(nx, y) ELSE NoVal,
-                    nrm2 |-> IF Tame(nx) THEN Dot(nx, nx) ELSE NoVal]
-              ELSE [a |-> a]
+\* what the history records after an action: the action, the mode the vector is in after it and the storage (both
+\* planes).  The observables the implementation is compared with (named views of both planes, dot / norm of the visible
+\* arrays) are functions of these; Observables() derives them when a history is exported.
+Obs(a, nx, nxi, m) == IF Record THEN [a |-> TLCEval(a), cs |-> m, data |-> nx, datai |-> nxi] ELSE [a |-> TLCEval(a)]
+Observables(e) ==
+    LET re == TLCEval(e.data)
+        im == TLCEval(IF e.cs THEN e.datai ELSE ZeroV)
+        yim == TLCEval(IF e.cs THEN yi ELSE ZeroV)
+        tame == Tame(re) /\ Tame(im)
+    IN
+    [a |-> e.a, cs |-> e.cs, data |-> e.data, datai |-> e.datai, views |-> AllViews(L, e.data), viewsi |-> AllViews(L, e.datai),
+     dot |-> IF tame THEN CDot(<<re, im>>, <<y, yim>>) ELSE <<NoVal, NoVal>>,
+     dself |-> IF tame THEN CDot(<<re, im>>, <<re, im>>) ELSE <<NoVal, NoVal>>,
+     nrm2 |-> IF tame THEN CNorm2(<<re, im>>) ELSE NoVal]
 
-Init == /\ ly \in 1..Len(Layouts) /\ kind \in Kinds
-        /\ x = X0(N(Layouts[ly])) /\ y = Y0(N(Layouts[ly]))
+\* a vector that is allocated complex starts with the imaginary plane an earlier complex step has left in the storage
+\* (the driver writes x0 + i xi0 in the mode) and may start in the mode
+Init == /\ ly \in 1..Len(Layouts) /\ kind \in Kinds /\ alloc \in BOOLEAN
+        /\ x = TLCEval(X0(N(Layouts[ly]))) /\ y = TLCEval(Y0(N(Layouts[ly])))
+        /\ xi = TLCEval(IF alloc THEN XI0(N(Layouts[ly])) ELSE Fill(N(Layouts[ly]), Zero))
+        /\ yi = TLCEval(IF alloc THEN YI0(N(Layouts[ly])) ELSE Fill(N(Layouts[ly]), Zero))
+        /\ cs \in (IF alloc THEN BOOLEAN ELSE {FALSE})
         /\ st = "phys" /\ hist = <<>>
+InitCS == Init /\ alloc
+InitReal == Init /\ ~alloc
 
 Bound == Len(hist) < Depth
-Step(a, nx) == /\ x' = nx /\ hist' = Append(hist, Obs(a, nx)) /\ UNCHANGED <<ly, kind, y, st>>
-Other(src) == IF src = "self" THEN x ELSE y
+\* (TLCEval: the planes are evaluated once, not element by element every time a later expression looks at them)
+Step(a, nx, nxi) == LET ex == TLCEval(nx)
+                        exi == TLCEval(nxi)
+                    IN /\ x' = ex /\ xi' = exi /\ hist' = Append(hist, Obs(a, ex, exi, cs))
+                       /\ UNCHANGED <<ly, kind, alloc, y, yi, cs, st>>
+\* SET: NumPy assignment on the storage - w is the complex array the storage becomes
+StepSet(a, w) == LET ew == TLCEval(w) IN Step(a, ew[1], ew[2])
+\* ARITHMETIC: NumPy in-place operation on the visible array - w is the complex array the visible array becomes; out of
+\* the mode everything is real (w[2] is zero) and the hidden imaginary plane stays
+StepArith(a, w) == LET ew == TLCEval(w) IN Step(a, ew[1], IF cs THEN ew[2] ELSE xi)
+Other(src) == IF src = "self" THEN Vis ELSE VisY
+Sto == <<x, xi>>
+\* operands: real ones always, complex ones in the mode
+ScalarsNow == Scalars \cup (IF cs THEN CScalars ELSE {})
+OkScalar(c) == c[2] = Zero \/ cs
 
-SetValScalar(c) == Bound /\ Step([n |-> "set_val", c |-> c], Fill(Len(x), c))
-SetValArr(k) == Bound /\ Step([n |-> "set_val_arr", arr |-> Arr(k, Len(x))], Arr(k, Len(x)))
+SetValScalar(c) == Bound /\ OkScalar(c) /\ StepSet([n |-> "set_val", c |-> c[1], ci |-> c[2]], CFill(Len(x), c))
+SetValArr(k) == Bound /\ (k = 3 => cs)
+                /\ StepSet([n |-> "set_val_arr", arr |-> TLCEval(ArrC(k, Len(x))[1]), arri |-> TLCEval(ArrC(k, Len(x))[2])], ArrC(k, Len(x)))
 SetValIdx(ix, c) ==
-    /\ Bound /\ Nd!Valid(ix, <<Len(x)>>, TRUE)
+    /\ Bound /\ OkScalar(c) /\ Nd!Valid(ix, <<Len(x)>>, TRUE)
     /\ LET pos == Nd!Positions(ix, <<Len(x)>>, TRUE)
-       IN Step([n |-> "set_val_idx", idx |-> ix, c |-> c], Assign(x, pos, Fill(Len(pos), c)))
-SetVec(src) == Bound /\ Step([n |-> "set_vec", src |-> src], Other(src))
-IAdd(src) == Bound /\ Tame(x) /\ Step([n |-> "iadd", src |-> src], VAdd(x, Other(src)))
-ISub(src) == Bound /\ Tame(x) /\ Step([n |-> "isub", src |-> src], VSub(x, Other(src)))
-IAddConst(c) == Bound /\ Tame(x) /\ Step([n |-> "iadd_const", c |-> c], [i \in DOMAIN x |-> Add(x[i], c)])
-IMul(c) == Bound /\ Tame(x) /\ Step([n |-> "imul", c |-> c], VScale(c, x))
-IMulVec == Bound /\ Tame(x) /\ Step([n |-> "imul_vec", src |-> "y"], VMul(x, y))
-AddScalVec(c, src) == Bound /\ Tame(x) /\ Step([n |-> "add_scal_vec", c |-> c, src |-> src], VAdd(x, VScale(c, Other(src))))
+       IN StepSet([n |-> "set_val_idx", idx |-> ix, c |-> c[1], ci |-> c[2]], CAssign(Sto, pos, CFill(Len(pos), c)))
+\* set_vec(v) is set_val(v.asarray()): the storage becomes the visible array of v (out of the mode: a real array, so
+\* x.set_vec(x) clears the hidden plane)
+SetVec(src) == Bound /\ StepSet([n |-> "set_vec", src |-> src], Other(src))
+IAdd(src) == Bound /\ TameC(Sto) /\ StepArith([n |-> "iadd", src |-> src], CAddV(Vis, Other(src)))
+ISub(src) == Bound /\ TameC(Sto) /\ StepArith([n |-> "isub", src |-> src], CSubV(Vis, Other(src)))
+IAddConst(c) == Bound /\ OkScalar(c) /\ TameC(Sto) /\ StepArith([n |-> "iadd_const", c |-> c[1], ci |-> c[2]], CAddV(Vis, CFill(Len(x), c)))
+IMul(c) == Bound /\ OkScalar(c) /\ TameC(Sto) /\ StepArith([n |-> "imul", c |-> c[1], ci |-> c[2]], CScaleV(c, Vis))
+IMulVec == Bound /\ TameC(Sto) /\ StepArith([n |-> "imul_vec", src |-> "y"], CMulV(Vis, VisY))
+AddScalVec(c, src) == Bound /\ OkScalar(c) /\ TameC(Sto)
+                      /\ StepArith([n |-> "add_scal_vec", src |-> src, c |-> c[1], ci |-> c[2]], CAddV(Vis, CScaleV(c, Other(src))))
 \* iadd / isub / imul restricted to `idxs` (a flat NumPy index): only the addressed entries change
 OpIdx(op, ix, c) ==
-    /\ Bound /\ Tame(x) /\ Nd!Valid(ix, <<Len(x)>>, TRUE)
+    /\ Bound /\ OkScalar(c) /\ TameC(Sto) /\ Nd!Valid(ix, <<Len(x)>>, TRUE)
     /\ LET pos == Nd!Positions(ix, <<Len(x)>>, TRUE)
-           new == [k \in 1..Len(pos) |-> CASE op = "iadd" -> Add(x[pos[k] + 1], c)
-                                            [] op = "isub" -> Sub(x[pos[k] + 1], c)
-                                            [] OTHER -> Mul(x[pos[k] + 1], c)]
-       IN Step([n |-> "op_idx", op |-> op, idx |-> ix, c |-> c], Assign(x, pos, new))
+           old == TLCEval(CPick(Vis, pos))
+           cc == TLCEval(CFill(Len(pos), c))
+           new == CASE op = "iadd" -> CAddV(old, cc)
+                    [] op = "isub" -> CSubV(old, cc)
+                    [] OTHER -> CMulV(old, cc)
+       IN StepArith([n |-> "op_idx", op |-> op, idx |-> ix, c |-> c[1], ci |-> c[2]], CAssign(Vis, pos, new))
+
+\* Vector.set_complex_step_mode: changes which array the vector is, never the storage
+CsSwitch(on) ==
+    /\ Bound /\ alloc /\ cs # on
+    /\ cs' = on
+    /\ hist' = Append(hist, Obs([n |-> "cs_mode", on |-> on], x, xi, on))
+    /\ UNCHANGED <<ly, kind, alloc, x, xi, y, yi, st>>
 
 NVars == 3          \* every layout has three variables
 FlatIdx == {Nd!IntT(0), Nd!IntT(-1), Nd!SliceT(1, 3, Nd!NoneV), Nd!SliceT(Nd!NoneV, Nd!NoneV, 2), Nd!ArrT(<<2, 0>>)}
@@ -134,50 +249,59 @@ Idx2 == {<<Nd!TupT(<<Nd!IntT(-1), Nd!IntT(0)>>), FALSE>>, <<Nd!TupT(<<Nd!FullSli
 AllVarIdx == Idx1 \cup Idx2
 VarIdx(v) == IF Len(L.vars[v].shape) = 1 THEN Idx1 ELSE Idx2
 
-\* named writes: whole variable (scalar broadcast or an array of the variable's shape), through __setitem__ or through
-\* the array returned by __getitem__ (which must be a view of the data)
-SetName(v, via, whole) ==
-    /\ Bound
+\* named writes: whole variable (scalar broadcast or an array of the variable's shape; cplx: a complex value, in the mode
+\* only), through __setitem__ (SET: the storage of the variable becomes the value, imaginary part included) or through
+\* the array returned by __getitem__ (which must be a view of the visible array: out of the mode the real plane only)
+SetName(v, via, whole, cplx) ==
+    /\ Bound /\ (cplx => cs)
     /\ LET n == VSize(L, v)
            vals == IF whole = "scalar" THEN Fill(n, R(7)) ELSE [k \in 1..n |-> R(10 * v + k)]
+           valsi == IF ~cplx THEN Fill(n, Zero) ELSE IF whole = "scalar" THEN Fill(n, R(-3)) ELSE [k \in 1..n |-> R(k)]
            pos == [k \in 1..n |-> Start(L, v) + k - 1]
-       IN Step([n |-> "set_name", var |-> v, via |-> via, whole |-> whole, vals |-> vals], Assign(x, pos, vals))
-\* set_var(name, c, idxs, flat): NumPy index into the variable (its shape, or flattened)
-SetVarIdx(v, ix, flat) ==
-    /\ Bound /\ <<ix, flat>> \in VarIdx(v) /\ Nd!Valid(ix, L.vars[v].shape, flat)
+           a == [n |-> "set_name", var |-> v, via |-> via, whole |-> whole, vals |-> TLCEval(vals), valsi |-> TLCEval(valsi)]
+       IN IF via = "setitem" THEN StepSet(a, CAssign(Sto, pos, <<vals, valsi>>))
+          ELSE StepArith(a, CAssign(Vis, pos, <<vals, valsi>>))
+\* set_var(name, c, idxs, flat): NumPy index into the variable (its shape, or flattened); a SET
+SetVarIdx(v, ix, flat, cplx) ==
+    /\ Bound /\ (cplx => cs) /\ <<ix, flat>> \in VarIdx(v) /\ Nd!Valid(ix, L.vars[v].shape, flat)
     /\ LET pos == Nd!Positions(ix, L.vars[v].shape, flat)
            gpos == [k \in 1..Len(pos) |-> Start(L, v) + pos[k]]
+           c == <<R(9), IF cplx THEN R(4) ELSE Zero>>
        IN /\ Len(pos) > 0
-          /\ Step([n |-> "set_var", var |-> v, idx |-> ix, flat |-> flat, c |-> R(9)], Assign(x, gpos, Fill(Len(pos), R(9))))
+          /\ StepSet([n |-> "set_var", var |-> v, idx |-> ix, flat |-> flat, c |-> c[1], ci |-> c[2]], CAssign(Sto, gpos, CFill(Len(pos), c)))
 
 StMode == IF st = "norm_rev" THEN "rev" ELSE "fwd"
+\* scaling is arithmetic on the visible array with real factors
 ScaleToNorm(mode) ==
-    /\ Bound /\ Tame(x) /\ st = "phys" /\ mode \in ModesOf(kind)
+    /\ Bound /\ TameC(Sto) /\ st = "phys" /\ mode \in ModesOf(kind)
     /\ st' = IF mode = "fwd" THEN "norm_fwd" ELSE "norm_rev"
-    /\ x' = ToNorm(L, kind, mode, x)
-    /\ hist' = Append(hist, Obs([n |-> "scale_to_norm", mode |-> mode], x'))
-    /\ UNCHANGED <<ly, kind, y>>
+    /\ x' = TLCEval(ToNorm(L, kind, mode, x))
+    /\ xi' = IF cs THEN TLCEval(ToNormI(L, kind, mode, xi)) ELSE xi
+    /\ hist' = Append(hist, Obs([n |-> "scale_to_norm", mode |-> mode], x', xi', cs))
+    /\ UNCHANGED <<ly, kind, alloc, y, yi, cs>>
 ScaleToPhys ==
-    /\ Bound /\ Tame(x) /\ st # "phys"
+    /\ Bound /\ TameC(Sto) /\ st # "phys"
     /\ st' = "phys"
-    /\ x' = ToPhys(L, kind, StMode, x)
-    /\ hist' = Append(hist, Obs([n |-> "scale_to_phys", mode |-> StMode], x'))
-    /\ UNCHANGED <<ly, kind, y>>
+    /\ x' = TLCEval(ToPhys(L, kind, StMode, x))
+    /\ xi' = IF cs THEN TLCEval(ToPhysI(L, kind, StMode, xi)) ELSE xi
+    /\ hist' = Append(hist, Obs([n |-> "scale_to_phys", mode |-> StMode], x', xi', cs))
+    /\ UNCHANGED <<ly, kind, alloc, y, yi, cs>>
 
-Next == \/ \E c \in Scalars : SetValScalar(c)
-        \/ \E k \in 1..2 : SetValArr(k)
-        \/ \E ix \in FlatIdx : SetValIdx(ix, R(7))
-        \/ SetVec("y")
+Next == \/ \E c \in ScalarsNow : SetValScalar(c)
+        \/ \E k \in 1..3 : SetValArr(k)
+        \/ \E ix \in FlatIdx, c \in {Re(R(7)), <<R(7), R(-5)>>} : SetValIdx(ix, c)
+        \/ \E src \in {"y", "self"} : SetVec(src)
         \/ \E src \in {"y", "self"} : IAdd(src) \/ ISub(src)
-        \/ IAddConst(R(3))
-        \/ \E c \in Scalars : IMul(c)
-        \/ \E op \in {"iadd", "isub", "imul"}, ix \in FlatIdx, c \in {R(-2), R(3)} : OpIdx(op, ix, c)
+        \/ \E c \in {Re(R(3)), <<R(3), R(1)>>} : IAddConst(c)
+        \/ \E c \in ScalarsNow : IMul(c)
+        \/ \E op \in {"iadd", "isub", "imul"}, ix \in FlatIdx, c \in {Re(R(-2)), Re(R(3)), <<R(1), R(2)>>} : OpIdx(op, ix, c)
         \/ IMulVec
-        \/ \E c \in Scalars, src \in {"y", "self"} : AddScalVec(c, src)
-        \/ \E v \in 1..NVars, via \in {"setitem", "view"}, whole \in {"scalar", "array"} : SetName(v, via, whole)
-        \/ \E v \in 1..NVars, p \in AllVarIdx : SetVarIdx(v, p[1], p[2])
+        \/ \E c \in ScalarsNow, src \in {"y", "self"} : AddScalVec(c, src)
+        \/ \E v \in 1..NVars, via \in {"setitem", "view"}, whole \in {"scalar", "array"}, cplx \in BOOLEAN : SetName(v, via, whole, cplx)
+        \/ \E v \in 1..NVars, p \in AllVarIdx, cplx \in BOOLEAN : SetVarIdx(v, p[1], p[2], cplx)
         \/ \E mode \in {"fwd", "rev"} : ScaleToNorm(mode)
         \/ ScaleToPhys
+        \/ \E on \in BOOLEAN : CsSwitch(on)
 
 \* the sub-alphabet a solver uses around a scaling (every behaviour of NextSolver is a behaviour of Next); random
 \* histories over it cross the phys/norm boundary in both directions often
@@ -186,41 +310,80 @@ InNorm == st # "phys"
 NextSolver == \/ \E k \in 1..2 : InPhys /\ SetValArr(k)
               \/ InPhys /\ IAdd("y")
               \/ InPhys /\ ISub("y")
-              \/ \E c \in {R(-2), R(3)} : InPhys /\ IMul(c)
-              \/ \E v \in 1..NVars : InPhys /\ SetName(v, "setitem", "array")
+              \/ \E c \in {Re(R(-2)), Re(R(3))} : InPhys /\ IMul(c)
+              \/ \E v \in 1..NVars : InPhys /\ SetName(v, "setitem", "array", FALSE)
               \/ \E mode \in {"fwd", "rev"} : ScaleToNorm(mode)
               \/ InNorm /\ IAdd("y")
-              \/ InNorm /\ IMul(R(3))
-              \/ InNorm /\ AddScalVec(R(-2), "y")
-              \/ InNorm /\ SetName(3, "view", "scalar")
+              \/ InNorm /\ IMul(Re(R(3)))
+              \/ InNorm /\ AddScalVec(Re(R(-2)), "y")
+              \/ InNorm /\ SetName(3, "view", "scalar", FALSE)
               \/ ScaleToPhys
+
+\* the sub-alphabet of a complex step (every behaviour of NextCS from InitCS is a behaviour of Next): the mode is switched
+\* on and off, complex values are written and combined in the mode, real data are set / combined out of it while the
+\* imaginary plane of the last step is still in the storage
+NextCS == \/ \E on \in BOOLEAN : CsSwitch(on)
+          \/ cs /\ SetValArr(3)
+          \/ cs /\ \E c \in CScalars : SetValScalar(c) \/ IMul(c) \/ AddScalVec(c, "y")
+          \/ cs /\ \E ix \in FlatIdx : SetValIdx(ix, <<R(7), R(-5)>>) \/ OpIdx("imul", ix, <<R(1), R(2)>>) \/ OpIdx("iadd", ix, <<R(1), R(2)>>)
+          \/ cs /\ IAddConst(<<R(3), R(1)>>)
+          \/ cs /\ \E v \in 1..NVars, via \in {"setitem", "view"}, whole \in {"scalar", "array"} : SetName(v, via, whole, TRUE)
+          \/ cs /\ \E v \in 1..NVars, p \in AllVarIdx : SetVarIdx(v, p[1], p[2], TRUE)
+          \/ IMulVec
+          \/ \E src \in {"y", "self"} : IAdd(src) \/ ISub(src) \/ SetVec(src)
+          \/ \E k \in 1..2 : SetValArr(k)
+          \/ SetValScalar(Re(Zero))
+          \/ \E ix \in FlatIdx : SetValIdx(ix, Re(R(7))) \/ OpIdx("imul", ix, Re(R(3)))
+          \/ IMul(Re(R(3))) \/ IAddConst(Re(R(3))) \/ AddScalVec(Re(R(-2)), "y")
+          \/ \E v \in 1..NVars, via \in {"setitem", "view"}, whole \in {"scalar", "array"} : SetName(v, via, whole, FALSE)
+          \/ \E v \in 1..NVars, p \in AllVarIdx : SetVarIdx(v, p[1], p[2], FALSE)
+          \/ \E mode \in {"fwd", "rev"} : ScaleToNorm(mode)
+          \/ ScaleToPhys
 
 Spec == Init /\ [][Next]_vars
 
 \* ---- properties --------------------------------------------------------------------------------------------------
-TypeOK == /\ Len(x) = N(L) /\ Len(y) = N(L)
-          /\ \A i \in DOMAIN x : IsRat(x[i])
+TypeOK == /\ Len(x) = N(L) /\ Len(y) = N(L) /\ Len(xi) = N(L) /\ Len(yi) = N(L)
+          /\ \A i \in DOMAIN x : IsRat(x[i]) /\ IsRat(xi[i])
+          /\ (cs => alloc)
+          /\ (~alloc => xi = ZeroV /\ yi = ZeroV)
 LayoutOK(Ly) == /\ Len(Ly.vars) = NVars /\ Len(Ly.a0) = N(Ly) /\ Len(Ly.a1) = N(Ly) /\ Len(Ly.rr) = N(Ly)
                 /\ \A i \in 1..N(Ly) : Ly.a1[i] # Zero /\ Ly.rr[i] # Zero
-\* the named views tile the data: concatenated in layout order they ARE the data
+\* the named views tile the data: concatenated in layout order they ARE the data (both planes)
 RECURSIVE Concat(_, _)
 Concat(ss, m) == IF m = 0 THEN <<>> ELSE Concat(ss, m - 1) \o ss[m]
-ViewsTile == Concat(AllViews(L, x), Len(L.vars)) = x
-\* scaling to solver units and back returns the original data, in every mode the kind has, and the other way round
-ScaleRoundTrip == Tame(x) => \A mode \in ModesOf(kind) : /\ ToPhys(L, kind, mode, ToNorm(L, kind, mode, x)) = x
-                                                           /\ ToNorm(L, kind, mode, ToPhys(L, kind, mode, x)) = x
+ViewsTile == Concat(AllViews(L, x), Len(L.vars)) = x /\ Concat(AllViews(L, xi), Len(L.vars)) = xi
+\* scaling to solver units and back returns the original data, in every mode the kind has, and the other way round;
+\* in complex-step mode for both planes
+ScaleRoundTrip == TameC(Sto) => \A mode \in ModesOf(kind) : /\ ToPhys(L, kind, mode, ToNorm(L, kind, mode, x)) = x
+                                                              /\ ToNorm(L, kind, mode, ToPhys(L, kind, mode, x)) = x
+                                                              /\ ToPhysI(L, kind, mode, ToNormI(L, kind, mode, xi)) = xi
+                                                              /\ ToNormI(L, kind, mode, ToPhysI(L, kind, mode, xi)) = xi
 \* the reverse-mode scaling is the dual of the forward one: the pairing of a primal and a dual vector does not depend
-\* on the units it is taken in
-DualPairing == Tame(x) /\ Linear(kind) => Dot(ToNorm(L, kind, "fwd", x), ToNorm(L, kind, "rev", y)) = Dot(x, y)
-\* a named write changes nothing outside the variable's slice
+\* on the units it is taken in (the complex bilinear pairing of the visible arrays)
+DualPairing == TameC(Sto) /\ Linear(kind) =>
+                   CDot(<<ToNorm(L, kind, "fwd", Vis[1]), ToNormI(L, kind, "fwd", Vis[2])>>,
+                        <<ToNorm(L, kind, "rev", VisY[1]), ToNormI(L, kind, "rev", VisY[2])>>) = CDot(Vis, VisY)
+\* a named write changes nothing outside the variable's slice, in either plane
 NamedWriteFrame ==
     [][\A v \in 1..Len(L.vars) :
           (Len(hist') > Len(hist) /\ hist'[Len(hist')].a.n \in {"set_name", "set_var"} /\ hist'[Len(hist')].a.var = v)
-              => \A p \in 1..Len(x) : ~InVar(L, v, p) => x'[p] = x[p]]_vars
-\* norm^2 is the dot product with itself and is non-negative
-NormLaw == Tame(x) => Ge(Dot(x, x), Zero) /\ (Dot(x, x) = Zero <=> \A i \in DOMAIN x : x[i] = Zero)
+              => \A p \in 1..Len(x) : ~InVar(L, v, p) => x'[p] = x[p] /\ xi'[p] = xi[p]]_vars
+\* norm^2 of the visible array is non-negative and zero only for the zero array; out of the mode it is dot(x, x)
+NormLaw == TameC(Sto) => /\ Ge(CNorm2(Vis), Zero)
+                         /\ (CNorm2(Vis) = Zero <=> \A i \in DOMAIN x : Vis[1][i] = Zero /\ Vis[2][i] = Zero)
+                         /\ (~cs => CDot(Vis, Vis) = <<CNorm2(Vis), Zero>>)
 \* the second vector is never written
-OtherUntouched == [][y' = y]_vars
+OtherUntouched == [][y' = y /\ yi' = yi]_vars
+\* out of complex-step mode the hidden imaginary plane is changed by SET operations only, and only to zero (real data
+\* are assigned); switching the mode never changes the storage
+HiddenPlane ==
+    [][(~cs /\ Len(hist') > Len(hist)) =>
+          LET a == hist'[Len(hist')].a
+          IN /\ (a.n \notin {"set_val", "set_val_arr", "set_val_idx", "set_vec", "set_name", "set_var"} => xi' = xi)
+             /\ \A p \in 1..Len(x) : xi'[p] = xi[p] \/ xi'[p] = Zero]_vars
+ModeSwitchFrame == [][cs' # cs => x' = x /\ xi' = xi]_vars
+\* a vector that is not allocated complex never has an imaginary part (TypeOK) and is never in the mode
 
-View == <<ly, kind, x, st, Len(hist)>>
+View == <<ly, kind, alloc, x, xi, cs, st, Len(hist)>>
 =============================================================================
